@@ -21,25 +21,31 @@ VARIABLE l
 tvars == <<vars, l>>
 S(x) == {x[k] : k \in DOMAIN x}
 
+EnvOf(r) == [ctx |-> IF "ctx" \in DOMAIN r THEN r.ctx ELSE "wide", hist |-> IF "hist" \in DOMAIN r THEN r.hist ELSE "none",
+             loaded |-> {}, hdone |-> TRUE]
 BundleOf(r) == [cas |-> S(r.bundle.cas), lay |-> r.bundle.lay]
 LblOf(e) ==
   CASE e.op = "contact"   -> [NoLbl EXCEPT !.op = "contact", !.ep = e.ep, !.hs = e.hs, !.ver = e.ver, !.cc = e.cc,
                                            !.rpc = e.rpc, !.same = e.same]
-    [] e.op = "return"    -> [NoLbl EXCEPT !.op = "return", !.err = e.err, !.pan = e.pan, !.certs = e.certs, !.cm = e.cm]
+    [] e.op = "return"    -> [NoLbl EXCEPT !.op = "return", !.err = e.err, !.pan = e.pan, !.hang = e.hang, !.certs = e.certs, !.cm = e.cm]
     [] e.op = "construct" -> [NoLbl EXCEPT !.op = "construct", !.err = e.err]
+    [] e.op = "otherconf" -> [NoLbl EXCEPT !.op = "otherconf", !.err = e.err]
     [] e.op = "backoff"   -> [NoLbl EXCEPT !.op = "backoff", !.bo = e.bo]
 
 TraceInit == /\ l = 2 /\ TraceLog[1].ev = "reset"
-             /\ eps = TraceLog[1].eps /\ bundle = BundleOf(TraceLog[1])
+             /\ eps = TraceLog[1].eps /\ bundle = BundleOf(TraceLog[1]) /\ env = EnvOf(TraceLog[1])
              /\ pc = "trace" /\ i = 1 /\ contacted = <<>> /\ result = Pending /\ last = NoLbl
 Reset == /\ l <= Len(TraceLog) /\ TraceLog[l].ev = "reset"
-         /\ eps' = TraceLog[l].eps /\ bundle' = BundleOf(TraceLog[l])
+         /\ eps' = TraceLog[l].eps /\ bundle' = BundleOf(TraceLog[l]) /\ env' = EnvOf(TraceLog[l])
          /\ contacted' = <<>> /\ last' = NoLbl /\ l' = l + 1
          /\ UNCHANGED <<pc, i, result>>
 Step == /\ l <= Len(TraceLog) /\ TraceLog[l].ev = "step"
         /\ last' = LblOf(TraceLog[l].e)
         /\ contacted' = IF TraceLog[l].e.op = "contact" THEN Append(contacted, TraceLog[l].e.ep) ELSE contacted
         /\ l' = l + 1
+        /\ env' = [env EXCEPT !.loaded = CASE TraceLog[l].e.op = "otherconf" -> @ \cup Others(bundle)
+                                            [] TraceLog[l].e.op = "construct" -> @ \cup bundle.cas
+                                            [] OTHER -> @]
         /\ UNCHANGED <<eps, bundle, pc, i, result>>
 TraceNext == Reset \/ Step
 TraceSpec == TraceInit /\ [][TraceNext]_tvars
